@@ -1,6 +1,6 @@
 PROP = {
     "level": "exploration",
-    "technique": "runtime monitor: differential oracle (exact math/big re-evaluation) over the real channelLink decision functions",
+    "technique": "runtime monitor: differential oracle (exact math/big re-evaluation) over the real channelLink decision functions, sequentially over a boundary lattice and concurrently while UpdateForwardingPolicy switches between two configured policies (an accept must be exact under one of them)",
     "level_text": ("Every in-domain decision of the real CheckHtlcForward/CheckHtlcTransit on a real channelLink is compared "
                    "with an exact unbounded-integer evaluation of the statement's rules; accept<=>all rules hold and a "
                    "rejection must name a rule that is really violated. 2e5 (quick) / 2e7 (thorough) boundary-lattice cases. "
